@@ -287,11 +287,14 @@ pub fn ksf_effective(a: &KsfArg, fam: KsfFamily) -> KsfArg {
     match (a, fam) {
         (KsfArg::Absent, KsfFamily::Sim) => KsfArg::Sim(0),
         (KsfArg::Absent, KsfFamily::Identity) => KsfArg::Identity,
-        (KsfArg::Absent, KsfFamily::Argon2) | (KsfArg::Argon2Default, _) => KsfArg::Argon2 {
+        (KsfArg::Absent, KsfFamily::Argon2) | (KsfArg::Argon2Default, _) => KsfArg::Argon2Alg {
+            alg: 2,
+            v10: false,
             m: argon2::Params::DEFAULT_M_COST,
             t: argon2::Params::DEFAULT_T_COST,
             p: argon2::Params::DEFAULT_P_COST,
         },
+        (KsfArg::Argon2 { m, t, p }, _) => KsfArg::Argon2Alg { alg: 2, v10: false, m: *m, t: *t, p: *p },
         (x, _) => x.clone(),
     }
 }
